@@ -1,7 +1,8 @@
 (* Properties_C03_types.v — property C03 (typed values: acceptance, canonical form, equality, ordering)
    for the integer types, decimal64, boolean and the range restriction: theorem statements only.
    Each is closed by [exact] of a lemma proved in IntLexP / Dec64P / TypesMiscP and followed by
-   Print Assumptions. Models: IntLex.v, Dec64.v, TypesMisc.v (as coded, defects included); the Spec
+   Print Assumptions. Models: IntLex.v, Dec64.v, TypesMisc.v (as coded; Dec64.v follows the code after
+   the fixes f731599 and f933623 of /repo); the Spec
    definitions (rfc_int_lex, ly_int_lex, rfc_dec64_lex, rfc_ws_dec64_lex, in_parts, ...) are at the
    end of the model files. Not covered here: LYB encode/decode, duplication, the schema-default
    entry point (base 0 integers). *)
@@ -128,66 +129,44 @@ Print Assumptions C03_bool_sort_total_order.
 
 (* ====================== decimal64 ====================== *)
 
-(* dec64_scale. For fraction-digits fd >= 1, a caller whose byte after the value is not a digit
-   (NUL terminator, or a delimiter of XML/JSON text), and a value that is not one of the defect
-   inputs (a sign not followed by a digit): the text is stored as the scaled integer n exactly when
-   it is, between optional white space, an optional sign, digits and optionally a period and digits
+(* dec64_scale, full strength, no side hypotheses (the model follows the code as fixed by /repo
+   commits f731599 and f933623; the result does not depend on any byte outside the value). For
+   fraction-digits fd >= 1: the text is stored as the scaled integer n exactly when it is, between
+   optional white space, an optional sign, digits and optionally a period and digits
    (RFC 7950 9.3.1) whose value times 10^fd is n (dec64_denotes: the equation multiplied through by
    10^(number of fraction digits written)), n fits int64 and passes the range check. Any number of
    trailing fraction zeros is accepted; a significant digit beyond fd is not. *)
 Theorem C03_dec64_scale :
-  forall fd parts s n nxt,
-    (1 <= fd)%nat -> is_digit nxt = false -> dec64_sign_no_digit s = false ->
-    (dec64_store fd parts s nxt = Ok n <->
+  forall fd parts s n,
+    (1 <= fd)%nat ->
+    (dec64_store fd parts s = Ok n <->
      rfc_ws_dec64_lex fd s n /\ (I64MIN_Z <= n <= I64MAX_Z)%Z /\ validate_range parts n = true).
 Proof. exact dec64_store_scale. Qed.
 Print Assumptions C03_dec64_scale.
 
-(* the excluded inputs are all outside the RFC language: nothing of it is lost by the exclusion *)
-Theorem C03_dec64_defect_outside_rfc :
-  forall fd s n, rfc_ws_dec64_lex fd s n -> dec64_sign_no_digit s = false.
-Proof. exact rfc_not_defect. Qed.
-Print Assumptions C03_dec64_defect_outside_rfc.
+(* the same for the parser alone (lyplg_type_parse_dec64, no range) *)
+Theorem C03_dec64_parse_scale :
+  forall fd s n,
+    (1 <= fd)%nat ->
+    (dec64_parse fd s = Ok n <-> rfc_ws_dec64_lex fd s n /\ (I64MIN_Z <= n <= I64MAX_Z)%Z).
+Proof. exact dec64_scale. Qed.
+Print Assumptions C03_dec64_parse_scale.
 
-(* the same without the exclusion: what the code accepts is the language in which the digits before
-   the period may be missing when a sign is present *)
-Theorem C03_dec64_scale_ascoded :
-  forall fd s n nxt,
-    (1 <= fd)%nat -> is_digit nxt = false ->
-    (dec64_parse fd s nxt = Ok n <-> ly_dec64_lex fd s n /\ (I64MIN_Z <= n <= I64MAX_Z)%Z).
-Proof. exact dec64_scale_ascoded. Qed.
-Print Assumptions C03_dec64_scale_ascoded.
-
-(* every value of the RFC language (with white space) is accepted whatever byte follows it *)
+(* every value of the RFC language (with white space) is accepted *)
 Theorem C03_dec64_complete :
-  forall fd s n nxt,
-    (1 <= fd)%nat -> ly_dec64_lex fd s n -> (I64MIN_Z <= n <= I64MAX_Z)%Z ->
-    dec64_parse fd s nxt = Ok n.
+  forall fd s n,
+    (1 <= fd)%nat -> rfc_ws_dec64_lex fd s n -> (I64MIN_Z <= n <= I64MAX_Z)%Z ->
+    dec64_parse fd s = Ok n.
 Proof. exact dec64_parse_complete. Qed.
 Print Assumptions C03_dec64_complete.
 
-(* DEFECT: a lone sign is stored as 0 for every fraction-digits, although no number is written *)
-Theorem C03_dec64_sign_only_refuted :
-  forall fd nxt, (1 <= fd)%nat ->
-    dec64_parse fd [45] nxt = Ok 0%Z /\ dec64_parse fd [43] nxt = Ok 0%Z /\
-    (forall n, ~ rfc_ws_dec64_lex fd [45] n) /\ (forall n, ~ rfc_ws_dec64_lex fd [43] n).
-Proof. exact dec64_sign_only_refuted. Qed.
-Print Assumptions C03_dec64_sign_only_refuted.
-
-(* DEFECT (same cause): -.5 is accepted as -0.5 while .5 is rejected *)
-Theorem C03_dec64_no_int_digits_refuted :
-  dec64_parse 1 [45; 46; 53] 0 = Ok (-5)%Z /\ (forall n, ~ rfc_ws_dec64_lex 1 [45; 46; 53] n) /\
-  dec64_parse 1 [46; 53] 0 = Err E_VALID.
-Proof. exact dec64_no_int_digits_refuted. Qed.
-Print Assumptions C03_dec64_no_int_digits_refuted.
-
-(* DEFECT: value[len + 1] is read without a length check, so the two-byte value 1. is accepted as
-   1.0 when the next byte in memory happens to be a digit, and rejected otherwise *)
-Theorem C03_dec64_overread_refuted :
-  dec64_parse 1 [49; 46] 53 = Ok 10%Z /\ dec64_parse 1 [49; 46] 0 = Err E_VALID /\
-  (forall n, (I64MIN_Z <= n <= I64MAX_Z)%Z -> ~ rfc_ws_dec64_lex 1 [49; 46] n).
-Proof. exact dec64_overread_refuted. Qed.
-Print Assumptions C03_dec64_overread_refuted.
+(* regression of the former defect (fixed by f933623): a value whose first non-blank byte is a sign
+   that is not followed by a digit ( -  +  -.5  +.5  - 1 ) is rejected with LY_EVALID, for every
+   fraction-digits *)
+Theorem C03_dec64_sign_needs_digit :
+  forall fd s, dec64_sign_no_digit s = true -> dec64_parse fd s = Err E_VALID.
+Proof. exact dec64_sign_needs_digit. Qed.
+Print Assumptions C03_dec64_sign_needs_digit.
 
 (* the canonical string is in RFC 7950 9.3.2 form: optional minus only, at least one digit on each
    side of the period, no other leading or trailing zeros, never -0.0 *)
@@ -196,21 +175,20 @@ Theorem C03_dec64_canon_is_rfc :
 Proof. exact dec64_canon_is_rfc. Qed.
 Print Assumptions C03_dec64_canon_is_rfc.
 
-(* canonicalisation is idempotent, from whatever spelling (defect inputs included) and wherever the
-   strings lie in memory *)
+(* canonicalisation is idempotent, from whatever accepted spelling *)
 Theorem C03_dec64_canon_idempotent :
-  forall fd parts s nxt nxt' n,
+  forall fd parts s n,
     (1 <= fd)%nat ->
-    dec64_store fd parts s nxt = Ok n ->
-    dec64_store fd parts (dec64_canon fd n) nxt' = Ok n /\ rfc_dec64_canonical (dec64_canon fd n).
+    dec64_store fd parts s = Ok n ->
+    dec64_store fd parts (dec64_canon fd n) = Ok n /\ rfc_dec64_canonical (dec64_canon fd n).
 Proof. exact dec64_canon_idempotent. Qed.
 Print Assumptions C03_dec64_canon_idempotent.
 
 (* every int64 is the stored form of its canonical string *)
 Theorem C03_dec64_canon_store :
-  forall fd parts n nxt,
+  forall fd parts n,
     (1 <= fd)%nat -> (I64MIN_Z <= n <= I64MAX_Z)%Z -> validate_range parts n = true ->
-    dec64_store fd parts (dec64_canon fd n) nxt = Ok n.
+    dec64_store fd parts (dec64_canon fd n) = Ok n.
 Proof. exact dec64_canon_store. Qed.
 Print Assumptions C03_dec64_canon_store.
 
@@ -229,13 +207,17 @@ Theorem C03_dec64_sort_total_order :
 Proof. exact dec64_sort_total_order. Qed.
 Print Assumptions C03_dec64_sort_total_order.
 
-(* the hypotheses of C03_dec64_scale are met by ordinary values: SP -10.50 SP with fraction-digits 2
-   and the range -10.5..-1.25 | 0 | 3.14..100 *)
+(* C03_dec64_scale on ordinary values: SP -10.50 SP with fraction-digits 2 and the range
+   -10.5..-1.25 | 0 | 3.14..100; and the former defect inputs ( -  +  -.5  +.5  - 1  1. ) are rejected *)
 Example C03_dec64_example :
-  dec64_sign_no_digit [32; 45; 49; 48; 46; 53; 48; 32] = false /\
-  dec64_store 2 [(-1050, -125); (0, 0); (314, 10000)]%Z [32; 45; 49; 48; 46; 53; 48; 32] 0 = Ok (-1050)%Z /\
+  dec64_store 2 [(-1050, -125); (0, 0); (314, 10000)]%Z [32; 45; 49; 48; 46; 53; 48; 32] = Ok (-1050)%Z /\
   dec64_canon 2 (-1050) = [45; 49; 48; 46; 53] /\
   dec64_canon 18 (-9223372036854775808) = [45;57;46;50;50;51;51;55;50;48;51;54;56;53;52;55;55;53;56;48;56] /\
   dec64_canon 2 5 = [48; 46; 48; 53] /\ dec64_canon 2 500 = [53; 46; 48] /\
-  dec64_store 1 [] [49; 46; 53; 49] 0 = Err E_FRAC /\ dec64_store 1 [] [49; 46; 53; 48; 48] 0 = Ok 15%Z.
+  dec64_store 1 [] [49; 46; 53; 49] = Err E_FRAC /\ dec64_store 1 [] [49; 46; 53; 48; 48] = Ok 15%Z /\
+  dec64_parse 1 [45] = Err E_VALID /\ dec64_parse 1 [43] = Err E_VALID /\
+  dec64_parse 1 [45; 46; 53] = Err E_VALID /\ dec64_parse 1 [43; 46; 53] = Err E_VALID /\
+  dec64_parse 1 [45; 32; 49] = Err E_VALID /\ dec64_parse 1 [49; 46] = Err E_VALID /\
+  dec64_sign_no_digit [32; 45; 46; 53] = true /\
+  dec64_parse 1 [45; 48; 46; 53] = Ok (-5)%Z /\ dec64_parse 1 [43; 49] = Ok 10%Z.
 Proof. repeat split; reflexivity. Qed.
